@@ -202,7 +202,51 @@ class Run:
         args += eng.get("args", [])
         return args
 
+    def run_gofuzz(self, eng):
+        """Coverage-guided workload: go test -fuzz on a scratch copy of /repo's working tree (thorough tier only)."""
+        ft = eng.get("fuzztime", {}).get(self.tier, 0)
+        if not ft:
+            return
+        target = eng["target"]
+        work = os.path.join(self.scratch, "fuzz_" + target)
+        os.makedirs(work, exist_ok=True)
+        subprocess.run(["rsync", "-a", "--exclude", ".git", REPO + "/", work + "/"], check=True)
+        zz = os.path.join(work, "internal", "zzfuzz")
+        os.makedirs(zz, exist_ok=True)
+        shutil.copy(os.path.join(VERIF, "harness_fuzz", "fuzz_test.go"), os.path.join(zz, "fuzz_test.go"))
+        env = go_env()
+        args = [self.build.go, "test", "-tags", "verif", "-run", "^$", "-fuzz", "^%s$" % target, "-fuzztime", str(ft),
+                "-parallel", str(eng.get("parallel", NCPU)), "-timeout", "60m", "./internal/zzfuzz/"]
+        p = subprocess.run(args, cwd=work, env=env, capture_output=True, text=True)
+        out = p.stdout + p.stderr
+        execs, interesting = 0, 0
+        for m in re.finditer(r"execs: (\d+) .*?new interesting: \d+ \(total: (\d+)\)", out):
+            execs, interesting = int(m.group(1)), int(m.group(2))
+        res = dict(engine="gofuzz-" + target, shard=0, seed=self.seed, evaluations=execs,
+                   nontrivial=["%s:%d" % (target, i) for i in range(interesting)],
+                   paths={"fuzz-execs:" + target: execs, "fuzz-interesting-inputs:" + target: interesting},
+                   samples=[dict(fuzz_target=target, fuzztime=str(ft), executions=execs, inputs_that_increased_coverage=interesting)],
+                   violations=[], inconclusive={}, extra={})
+        if p.returncode != 0:
+            m = re.search(r"Failing input written to (\S+)", out)
+            witness = {}
+            if m:
+                fp = os.path.join(zz, m.group(1))
+                try:
+                    witness["corpus_file"] = open(fp, errors="replace").read()[:20000]
+                except Exception:
+                    pass
+            fail = "\n".join([l for l in out.split("\n") if l.strip() and not l.startswith("fuzz: elapsed")][-25:])
+            if "FAIL" in out and ("Failing input" in out or "panic" in out or "--- FAIL" in out):
+                res["violations"].append(dict(property=self.prop, clause="fuzz-failure", path=target, detail=fail[-1500:], witness=witness))
+            else:
+                res["inconclusive"]["go test -fuzz did not run: " + fail[-300:]] = 1
+        self.shard_results.append(dict(engine="gofuzz-" + target, shard=0, nshards=1, rc=0, result=res, last="", stderr="", args=[]))
+        shutil.rmtree(work, ignore_errors=True)
+
     def run_engine(self, eng, only_shard=None):
+        if eng.get("kind") == "gofuzz":
+            return self.run_gofuzz(eng)
         nshards = eng.get("shards", {}).get(self.tier, eng.get("shards", {}).get("quick", 8))
         timeout = eng.get("timeout", {}).get(self.tier, 900)
         edir = os.path.join(self.scratch, eng["name"])
@@ -355,7 +399,8 @@ class Run:
             rc = 2
         wall = time.time() - self.t0
         cov = dict(evaluations=int(evaluations), distinct_nontrivial=len(nontriv), rule=spec["rule"], samples=samples or ["(none)"],
-                   paths=paths, inconclusive=inconcl, violations_beyond_cap=cut, engines=[e["name"] for e in spec["engines"]],
+                   paths=paths, inconclusive=inconcl, violations_beyond_cap=cut,
+                   engines=[e["name"] for e in spec["engines"] if e.get("kind") != "gofuzz" or e.get("fuzztime", {}).get(self.tier)],
                    known_findings_seen={k: n for k, (_, n) in matched.items()}, incomplete=incomplete,
                    other_property_observations=len(other))
         cov.update(extra)
